@@ -143,6 +143,53 @@ def run(chk):
         return True, "", [ar[0].loc]
     chk.ob("C14.R2:traces-encoder", "the traces signal takes an event only if it is span-kinded and has a range extent", traces)
 
+    def traces_decline_reasons():
+        """The traces encoder declines only for a non-span kind or an extent that is not a range: the Option chain whose `?` declines is
+        extent() -> and_then(as_range) -> value-preserving map(s), with no further predicate (filter / take_if / a test on the range)."""
+        b = P.impl_method("emit_otlp::data::EventEncoder", "emit_otlp::data::traces::TracesEventEncoder", "encode_event")
+        br = [c for c in b.calls(normal_only=True) if c.callee.get("name") == "branch" and "Option" in (c.callee.get("self_ty") or c.callee.get("full") or "")]
+        if not br:
+            raise mir.AnchorMissing("the `?` on the extent chain of TracesEventEncoder::encode_event")
+        for c in br:
+            x = b.origin(c.args[0])
+            d = 0
+            names = []
+            while x[0] == "call" and d < 10:
+                d += 1
+                nm = x[1].callee.get("name")
+                names.append(nm)
+                if nm in ("filter", "take_if", "xor", "zip", "or", "or_else", "filter_map"):
+                    return False, ("the traces encoder narrows its extent with Option::%s at %s before the `?`: a span whose extent is a range "
+                                   "(e.g. an empty range start..start) would be declined and exported as a log" % (nm, x[1].loc)), [], x[1].loc
+                if nm == "and_then":
+                    clo = b.origin(x[1].args[1])
+                    if clo[0] == "agg" and clo[1].get("ak") == "closure":
+                        cb = P.body(clo[1]["def"])
+                        inner = [cc.callee.get("name") for cc in cb.calls(normal_only=True)]
+                        if inner != ["as_range"] or list(cb.switches()):
+                            return False, "the extent is tested by %s, not just as_range()" % inner, [], cb.span
+                if nm == "map":
+                    clo = b.origin(x[1].args[1])
+                    if clo[0] == "agg" and clo[1].get("ak") == "closure" and list(P.body(clo[1]["def"]).switches()):
+                        return False, "the value-preserving map of the extent chain branches", [], x[1].loc
+                if not x[1].args:
+                    break
+                x = b.origin(x[1].args[0])
+            if "extent" not in names:
+                continue
+        # and no other declining path
+        for rb in b.return_blocks():
+            for path in b.acyclic_paths(0, rb, limit=5000):
+                ps = mir.PathSummary(b, path)
+                r = ps.ret()
+                if r[0] == "agg" and r[1].get("variant") == "None":
+                    for sbb, o, v in ps.decisions():
+                        ok = (o[0] == "call" and o[1].callee.get("name") == "matches")
+                        if not ok:
+                            return False, "the traces encoder declines on a decision other than the span-kind filter (%s)" % o_str(o), [], b.span
+        return True, "", [c.loc for c in br]
+    chk.ob("C14.R2:traces-decline-reasons", "the traces encoder declines only for a non-span kind or an extent that is not a range", traces_decline_reasons)
+
     def metrics():
         b = P.impl_method("emit_otlp::data::EventEncoder", "emit_otlp::data::metrics::MetricsEventEncoder", "encode_event")
         somes = some_returns(b)
@@ -314,4 +361,7 @@ def run(chk):
     common.arg_agreement_rule(chk, P, "C14", [("emit_otlp", "src/client.rs"), ("emit_otlp", "src/data/metrics.rs"),
                                                ("emit_otlp", "src/data/traces.rs"), ("emit_otlp", "src/data/logs.rs"), ("emit", "src/kind.rs")], 5)
     common.builder_rules(chk, P, "C14", lambda b: b.key.startswith("emit_otlp::client::OtlpBuilder::") or b.key.startswith("emit::metric::Metric::<"), 8)
+    # "no event is exported twice": an acknowledged request is removed before the next one is sent / before a retry (shared with C12)
+    from . import c12
+    c12.send_loop_rules(chk, P, "C14.send")
     return chk
